@@ -123,6 +123,8 @@ TARGETS = [
                   ("Ref", "start is_match can_match will_always_match accept"))
     for f in fs.split()
 ] + [
+    ("src_fn_Slot_partial_cmp", "src/raw/ops.rs", "Slot", "partial_cmp", ("fn",), None, False, None),
+    ("src_fn_Slot_cmp", "src/raw/ops.rs", "Slot", "cmp", ("fn",), None, False, None),
     # Fst::new: the conditions of its four rejecting `if`s
     ("src_fn_Fst_new_too_short", "src/raw/mod.rs", "Fst", "new", ("cond", 1), FST_NEW, False, "bool"),
     ("src_fn_Fst_new_bad_version", "src/raw/mod.rs", "Fst", "new", ("cond", 2), FST_NEW, False, "bool"),
